@@ -17,11 +17,15 @@ Definition order_now : list lstep :=
   | Unrecognised _ => []
   end.
 Definition guarded_now : bool := match boot_rule_guarded with Known b => b | Unrecognised _ => false end.
+(* does the join path (partition.addNode) hand the replica list to the boot rule? *)
+Definition join_passes_members_now : bool := match add_node_joins_existing_log with Known true => false | _ => true end.
 
 Lemma C05_facts_ok : order_now = order_src /\ boot_rule_guarded = Known true /\ apply_advances_applied_index = Known true /\
   (* every Ready goes to the log store, also one that only advances the commit index: the durable hard state is never
      behind what the replica has applied and compacted *)
-  save_every_ready = Known true.
+  save_every_ready = Known true /\
+  (* a replica added to a running group starts with no peers: it takes the group's log *)
+  add_node_joins_existing_log = Known true.
 Proof. repeat split; reflexivity. Qed.
 
 (* a replica that is not the leader lets every message of a Ready leave only after that Ready's hard state (term,
@@ -47,6 +51,16 @@ Theorem C05_restart_not_older : forall peers d, pristine d = false -> after_boot
 Proof. exact guarded_boot_resumes. Qed.
 Theorem C05_fresh_store_bootstraps : forall peers d, peers <> [] -> pristine d = true -> boot_rule guarded_now peers d = BStart.
 Proof. exact guarded_boot_bootstraps_fresh. Qed.
+(* a replica added to a running group (its store is pristine) comes up holding nothing as committed: it agrees with the
+   group's log, whatever that is, and takes it from the leader *)
+Theorem C05_join_takes_group_log : forall members d g, pristine d = true ->
+  committed_agrees (join_boot guarded_now join_passes_members_now members d) g.
+Proof. exact (join_takes_group_log true). Qed.
+(* handing the joiner the replica list instead: it bootstraps a history of its own *)
+Theorem C05_join_with_members_forks_refuted :
+  pristine mem_new = true /\ m_term (join_boot true true [1; 2; 3] mem_new) 3 = Ok 1 /\ m_term group_log_12 3 = Ok 2 /\
+  h_commit (m_hard (join_boot true true [1; 2; 3] mem_new)) = 3 /\ ~ committed_agrees (join_boot true true [1; 2; 3] mem_new) group_log_12.
+Proof. exact join_with_members_forks_refuted. Qed.
 (* regression: the unguarded rule *)
 Theorem C05_reboot_forks_refuted :
   m_hard (after_boot (boot_rule false [1] used_store) [1] used_store) = {| h_term := 1; h_vote := 0; h_commit := 6 |} /\
@@ -57,3 +71,4 @@ Proof. exact reboot_forks_refuted. Qed.
 Print Assumptions C05_persist_before_send.
 Print Assumptions C05_apply_in_order.
 Print Assumptions C05_restart_not_older.
+Print Assumptions C05_join_takes_group_log.
